@@ -229,9 +229,9 @@ def resolve_rule(repo: Repo, rep: Report, rid: str) -> None:
 
     fold = fold_resolve(repo)
     if fold is not None:
-        for label in ("type object passed through", "direct name", "alias chain of 3", "alias chain of 9", "unknown name", "dangling alias", "alias cycle",
-                      "self alias", "alias chain of 40"):
-            bad = [x for x in fold["bad"] if x[0] == label]
+        for label in ("type object passed through", "direct name", "alias chain of 3", "alias chain of 9", "alias chain of 10", "unknown name", "dangling alias",
+                      "alias cycle", "self alias", "alias chain of 40"):
+            bad = [x for x in fold["bad"] if x[0] == label or x[0].startswith(label + " (")]
             rep.check(not bad, rid, f"{fi.key}:fold:{label}", "folded over this alias table: yields the type or raises ResolveError, never a string",
                       f"resolve on an alias table with '{label}': {bad[0][1] if bad else ''} (expected {bad[0][2] if bad else ''})", fi.loc())
         rep.floor(rid, "resolve exits", fold["cases"], 9)
@@ -259,6 +259,29 @@ def resolve_rule(repo: Repo, rep: Report, rid: str) -> None:
 def comment_rule(repo: Repo, rep: Report, rid: str) -> None:
     rep.rule(rid, "comment stripping keeps line structure: a comment is replaced by exactly its newlines, quoted strings are returned unchanged")
     fi = repo.func("parser.py", "TokenParser._remove_comments.<locals>._replacer")
+    # the replacement function is a leaf: interpret it on stand-in match objects (structural fallback below when it cannot be interpreted)
+    from ..minieval import Evaluator, Host, Raised, Refused, Sym, UserFunc
+
+    folded = None
+    try:
+        folded = []
+        for g1, g2, want in (('"a // not a comment"', None, '"a // not a comment"'), (None, "// to the end of the line", ""), (None, "/* one\n two\n three */", "\n\n"),
+                             (None, "/**/", ""), ("'x'", None, "'x'"), ("", "/* \n */", "\n")):
+            grp = {0: (g1 or "") + (g2 or ""), 1: g1, 2: g2}
+            m_ = Sym("match", {}, {"group": Host(lambda i=0, grp=grp: grp[i]), "groups": Host(lambda grp=grp: (grp[1], grp[2]))})
+            try:
+                got = Evaluator({}, steps=2000).call_user(UserFunc(fi.node), [m_], {})
+            except Raised as e:
+                got = f"raise {e}"
+            if got != want:
+                folded.append((g1, g2, got, want))
+    except Refused:
+        folded = None
+    if folded is not None:
+        rep.check(not folded, rid, f"{fi.key}:comment", "6 matches folded: a comment becomes exactly its newlines, a quoted string is returned unchanged",
+                  (f"the comment replacement returns {folded[0][2]!r} for the match (string {folded[0][0]!r}, comment {folded[0][1]!r}), expected {folded[0][3]!r}: a removed "
+                   "comment is not replaced by exactly its newlines (line numbers and line-oriented tokens behind it shift) or a quoted string is altered") if folded else "",
+                  fi.loc())
     g = CFG(fi.node)
     arm = [x for x in g.nodes if x.kind == "if" and "group(2)" in norm(x.ast.test)]
     ok = False
@@ -268,11 +291,12 @@ def comment_rule(repo: Repo, rep: Report, rid: str) -> None:
             sides = [rets[0].value.left, rets[0].value.right]
             ok = any(is_const(s) and const_value(s) == "\n" for s in sides) and any(isinstance(s, ast.Call) and call_name(s) == "count" and is_const(s.args[0])
                                                                                     and const_value(s.args[0]) == "\n" for s in sides)
-    rep.check(ok, rid, f"{fi.key}:comment", "returns '\\n' * comment.count('\\n')", "a removed comment is not replaced by exactly its newlines: line numbers and "
-              "line-oriented tokens after a multi-line comment would shift", fi.loc())
-    rets = [x for x in g.nodes if x.kind == "stmt" and isinstance(x.ast, ast.Return) and (not arm or x.ast not in arm[0].ast.body)]
-    rep.check(len(rets) == 1 and norm(rets[0].ast.value) == "match.group(1)", rid, f"{fi.key}:string", "quoted strings are returned unchanged",
-              "quoted strings are no longer returned unchanged", fi.loc())
+    if folded is None:
+        rep.check(ok, rid, f"{fi.key}:comment", "returns '\\n' * comment.count('\\n')", "a removed comment is not replaced by exactly its newlines: line numbers and "
+                  "line-oriented tokens after a multi-line comment would shift", fi.loc())
+        rets = [x for x in g.nodes if x.kind == "stmt" and isinstance(x.ast, ast.Return) and (not arm or x.ast not in arm[0].ast.body)]
+        rep.check(len(rets) == 1 and norm(rets[0].ast.value) == "match.group(1)", rid, f"{fi.key}:string", "quoted strings are returned unchanged",
+                  "quoted strings are no longer returned unchanged", fi.loc())
     outer = repo.func("parser.py", "TokenParser._remove_comments")
     pat = [s for s in walk_body(outer.node.body) if isinstance(s, ast.Assign) and norm(s.targets[0]) == "pattern"]
     okp = False
